@@ -8,7 +8,11 @@ MODULE = "Rspirv.Props.C10"
 THEOREMS = ["Rspirv.Props.C10.C10_literal", "Rspirv.Props.C10.litOne_spec", "Rspirv.Props.C10.litTwo_spec",
             "Rspirv.Props.C10.C10_asm", "Rspirv.Props.C10.C10_track_int", "Rspirv.Props.C10.C10_track_float",
             "Rspirv.Props.C10.resolve_cons", "Rspirv.Props.C10.C10_track_value", "Rspirv.Props.C10.C10_track_noid",
-            "Rspirv.Props.C10.C10_fresh", "Rspirv.Props.C10.C10_constant_uses_rtype"]
+            "Rspirv.Props.C10.C10_fresh", "Rspirv.Props.C10.C10_constant_uses_rtype",
+            # Props/C10Solely.lean: the step lemmas lifted to whole prefixes ("decided solely by the declarations that precede it")
+            "Rspirv.Props.C10.track_inert", "Rspirv.Props.C10.C10_solely", "Rspirv.Props.C10.track_shape",
+            "Rspirv.Props.C10.track_eq_binding", "Rspirv.Props.C10.C10_extensional", "Rspirv.Props.C10.C10_extensional_run",
+            "Rspirv.Props.C10.C10_newest_wins", "Rspirv.Props.C10.C10_decl_reaches"]
 NEEDS = ("header", "core", "decode", "operand_enum", "asm_arms", "parse_operand", "operands")
 WIDTHS = [8, 16, 32, 64, 64, 32, 1, 7, 9, 24, 31, 33, 48, 63, 65, 128, 0, 0x7fffffff, 0x80000000, 0xffffffe0, 0xffffffe1, 0xffffffff]
 
@@ -99,8 +103,8 @@ def run(ctx):
         T, fails = C.translate_all(ctx)
         hok, herr = C.build_harness(ctx, bins=("impl",))
         have = C.need(ctx, *NEEDS)
-        failing = C.prove(ctx, MODULE, THEOREMS, extra_targets=["driver"],
-                          files=["Rspirv/Props/C10.lean", "Rspirv/Model/Parser.lean", "Rspirv/Model/Assemble.lean"]) if have else []
+        failing = C.prove(ctx, MODULE, THEOREMS, extra_targets=["Rspirv.Props.C10Solely", "driver"],
+                          files=["Rspirv/Props/C10.lean", "Rspirv/Props/C10Solely.lean", "Rspirv/Model/Parser.lean", "Rspirv/Model/Assemble.lean"]) if have else []
     for n, e in failing:
         ctx.issue(f"theorem:{n}", f"Lean obligation no longer checks: {e['msg'][:300]}", witness=e)
     if not hok:
